@@ -494,6 +494,11 @@ pub mod integrate {
         pub rule: Rule,
         pub start: i32,
         pub denom: u32,
+        /// the density handed to the integrator has the integration interval as its support: it is ln 0 for
+        /// every x outside [a, b] (a truncated distribution / a prior with a support check). The quadrature
+        /// rules only have nodes inside [a, b], so the reference value is unchanged.
+        #[serde(default)]
+        pub support_only: bool,
     }
 
     /// compare `r` with sum_i exp(terms[i]) * exp(ln_factor), everything scaled by the largest term
@@ -521,7 +526,24 @@ pub mod integrate {
         let den = c.denom as f64;
         let a = c.start as f64 / den;
         let dens = c.dens;
-        let density = |_i: usize, x: f64| LogProb(dens.ln_f(x));
+        let span: u32 = match &c.rule {
+            Rule::Trapezoid { width, .. } | Rule::Simpson { width, .. } => *width,
+            Rule::Grid { incs } => incs.iter().map(|&d| d as u32).sum(),
+        };
+        let b_end = match &c.rule {
+            Rule::Grid { .. } => (c.start as i64 + span as i64) as f64 / den,
+            _ => (c.start as f64 + span as f64) / den,
+        };
+        let support_only = c.support_only;
+        let outside = std::cell::Cell::new(false);
+        let density = |_i: usize, x: f64| {
+            if support_only && (x < a || x > b_end) {
+                outside.set(true);
+                LogProb::ln_zero()
+            } else {
+                LogProb(dens.ln_f(x))
+            }
+        };
         let mut zero_at_node = false;
         let (err, n) = match &c.rule {
             Rule::Trapezoid { n, width } => {
@@ -597,6 +619,8 @@ pub mod integrate {
         pass.add_if(n == 201, "n=201");
         pass.add_if(zero_at_node, "density zero at a node");
         pass.add_if(c.start < 0, "negative lower bound");
+        pass.add_if(c.support_only && !zero_at_node, "density supported on [a, b] only, positive at the ends");
+        let _ = outside.get();
         Ok((pass, err))
     }
 
@@ -626,9 +650,9 @@ pub mod integrate {
                     1 => (1u32..=200_000).prop_map(move |width| Rule::Simpson { half: (n - 1) / 2, width }).boxed(),
                     _ => proptest::collection::vec(prop_oneof![3 => 1u16..=50, 1 => 1u16..=5000], n - 1).prop_map(|incs| Rule::Grid { incs }).boxed(),
                 };
-                (Just(d), rule, -100_000i32..=100_000, 0u32..=2000)
+                (Just(d), rule, -100_000i32..=100_000, 0u32..=2000, prop_oneof![2 => Just(false), 1 => Just(true)])
             })
-            .prop_map(|(dens, rule, start, tail)| {
+            .prop_map(|(dens, rule, start, tail, support_only)| {
                 let span: u32 = match &rule {
                     Rule::Trapezoid { width, .. } | Rule::Simpson { width, .. } => *width,
                     Rule::Grid { incs } => incs.iter().map(|&d| d as u32).sum(),
@@ -639,11 +663,11 @@ pub mod integrate {
                         let start = start.unsigned_abs() % 2001;
                         let tail = if tail % 3 == 0 { 0 } else { tail };
                         let start = if start % 3 == 0 { 0 } else { start };
-                        Case { dens, rule, start: start as i32, denom: start + span + tail }
+                        Case { dens, rule, start: start as i32, denom: start + span + tail, support_only }
                     }
                     // support [0, inf)
-                    Dens::Expo { .. } => Case { dens, rule, start: start.abs(), denom: 1000 },
-                    _ => Case { dens, rule, start, denom: 1000 },
+                    Dens::Expo { .. } => Case { dens, rule, start: start.abs(), denom: 1000, support_only },
+                    _ => Case { dens, rule, start, denom: 1000, support_only },
                 }
             })
             .boxed()
